@@ -200,6 +200,180 @@ def probe_tostring(dialect, position, v):
                 **{'class': 'tostring/%s/%s' % (dialect, '+'.join(cls) or 'NEW')})
 
 
+
+# ------------------------------------------------------------------ several constants / typed constants per statement
+import datetime as _dt
+import re as _re
+
+TZ2 = _dt.timezone(_dt.timedelta(hours=2))
+TYPED = [
+    [1, True, 1.0, '1'], [True, 1, 1.0], [1.0, 1, True], [0, False, 0.0, '0'], [False, 0.0, 0], [0.0, False, 0],
+    ['x', 'x', 'X'], ['1', 1, '1.0', 1.0], [2, 2.0, '2', 2], [True, False, True, 1, 0], [None, 0, False, ''], [1, None, True],
+    [_dt.date(2020, 1, 2), _dt.datetime(2020, 1, 2), _dt.datetime(2020, 1, 2, 0, 0, 0, 1)],
+    [_dt.datetime(2020, 1, 2, 3, 4, 5, 678901), _dt.datetime(2020, 1, 2, 3, 4, 5), _dt.datetime(2020, 1, 2, 3, 4, 5, tzinfo=TZ2)],
+    [_dt.datetime(1999, 12, 31, 23, 59, 59, 999999, tzinfo=_dt.timezone.utc), _dt.datetime(2024, 2, 29, 12, 0, 0, 5, tzinfo=TZ2)],
+    [_dt.timedelta(days=1, seconds=5, microseconds=7), _dt.timedelta(seconds=5), _dt.timedelta(days=-1), _dt.timedelta(0)],
+    [_dt.date(1, 1, 1), _dt.date(9999, 12, 31), 1, '2020-01-02'],
+]
+BOOL_AS_INT = ('sqlite', 'mssql', 'oracle')
+
+
+def build_multi(position, values, null_node=False):
+    from mindsdb_sql.parser import ast as A
+    I = A.Identifier
+    cs = [A.NullConstant() if (v is None and null_node) else A.Constant(v) for v in values]
+    if position == 'select':
+        for i, c in enumerate(cs):
+            c.alias = I('x%d' % i)
+        return A.Select(targets=cs)
+    if position == 'where':
+        e = None
+        for i, c in enumerate(cs):
+            b = A.BinaryOperation('=', args=[I('c%d' % i), c])
+            e = b if e is None else A.BinaryOperation('and', args=[e, b])
+        return A.Select(targets=[I('a')], from_table=I('t'), where=e)
+    if position == 'in':
+        return A.Select(targets=[I('a')], from_table=I('t'), where=A.BinaryOperation('in', args=[I('a'), A.Tuple(cs)]))
+    if position == 'insert':
+        return A.Insert(table=I('t'), columns=[I('c%d' % i) for i in range(len(cs))], values=[cs])
+    if position == 'update':
+        return A.Update(table=I('t'), update_columns={'c%d' % i: c for i, c in enumerate(cs)},
+                        where=A.BinaryOperation('=', args=[I('b'), I('d')]))
+    raise ValueError(position)
+
+
+def split_top(s, sep):
+    """split on `sep` outside single-quoted literals (doubled quotes toggle twice)"""
+    out, cur, inq, i = [], [], False, 0
+    while i < len(s):
+        if s[i] == "'":
+            inq = not inq
+        if not inq and s.startswith(sep, i):
+            out.append(''.join(cur)); cur = []; i += len(sep)
+            continue
+        cur.append(s[i]); i += 1
+    out.append(''.join(cur))
+    return out
+
+
+def extract_literals(position, sql):
+    """the literal texts of a statement built by build_multi, in order (None = shape not recognised)"""
+    s = _re.sub(r'\s*\n\s*', ' ', sql).strip()
+    s = _re.sub(r' FROM DUAL$', '', s)
+    try:
+        if position == 'select':
+            body = s[len('SELECT '):]
+            return [_re.split(r' AS ', p, flags=_re.I)[0].strip() for p in split_top(body, ', ')]
+        if position == 'where':
+            body = _re.split(r' WHERE ', s, 1, flags=_re.I)[1]
+            return [_re.split(r'\s*=\s*', p, 1)[1].strip() for q in split_top(body, ' AND ') for p in split_top(q, ' and ')]
+        if position == 'in':
+            body = _re.split(r' IN \(', s, 1, flags=_re.I)[1]
+            assert body.endswith(')')
+            return [p.strip() for p in split_top(body[:-1], ', ')]
+        if position == 'insert':
+            body = _re.split(r'VALUES\s*\(', s, 1, flags=_re.I)[1]
+            assert body.endswith(')')
+            return [p.strip() for p in split_top(body[:-1], ', ')]
+        if position == 'update':
+            body = _re.split(r' SET ', s, 1, flags=_re.I)[1]
+            body = split_top(split_top(body, ' WHERE ')[0], ' where ')[0]
+            return [_re.split(r'\s*=\s*', p, 1)[1].strip() for p in split_top(body, ', ')]
+    except Exception:
+        return None
+    return None
+
+
+def read_literal(text, reader):
+    """(type name, python value) of one literal text"""
+    if text.startswith("'"):
+        r = reader(text)
+        return ('str', r[0]) if r is not None and r[1] == '' else ('bad', text)
+    u = text.upper()
+    if u in ('TRUE', 'FALSE'):
+        return ('bool', u == 'TRUE')
+    if u == 'NULL':
+        return ('null', None)
+    if _re.fullmatch(r'-?[0-9]+', text):
+        return ('int', int(text))
+    if _re.fullmatch(r'-?[0-9]+\.[0-9]*([eE][-+]?[0-9]+)?|-?[0-9]+[eE][-+]?[0-9]+', text):
+        return ('float', float(text))
+    return ('bad', text)
+
+
+def literal_ok(v, got, dialect):
+    """does the literal read back as the value AND type of its own Constant"""
+    t, x = got
+    if v is None:
+        return t == 'null'
+    if isinstance(v, bool):
+        if dialect in BOOL_AS_INT:      # these dialects have no boolean literal: 1 / 0 is their spelling
+            return t == 'int' and x == int(v)
+        return t == 'bool' and x == v
+    if isinstance(v, int):
+        return t == 'int' and x == v
+    if isinstance(v, float):
+        return t == 'float' and x == v
+    if isinstance(v, str):
+        return t == 'str' and x == v
+    if t != 'str':
+        return False
+    try:
+        if isinstance(v, _dt.datetime):
+            b = _dt.datetime.fromisoformat(x)
+            return b == v and b.tzinfo == v.tzinfo and b.utcoffset() == v.utcoffset() and b.microsecond == v.microsecond
+        if isinstance(v, _dt.date):
+            return _dt.date.fromisoformat(x) == v
+        if isinstance(v, _dt.timedelta):
+            return x == str(v)
+    except Exception:
+        return False
+    return False
+
+
+def probe_typed(dialect, position, values, path, renderer=None):
+    """every literal of a statement with several constants reads back as the value and type of its own Constant.
+    path: 'render' (SqlalchemyRender, optionally a shared instance) or 'tostring'"""
+    if path == 'render':
+        if frame(dialect, position) is None:
+            return None
+        from mindsdb_sql.render.sqlalchemy_render import SqlalchemyRender
+        r = renderer or SqlalchemyRender(dialect)
+        try:
+            sql = r.get_string(build_multi(position, values), with_failback=False)
+        except Exception as e:
+            sql, lits = '%s: %s' % (type(e).__name__, str(e)[:100]), None
+        else:
+            lits = extract_literals(position, sql)
+        reader = mysql_lex if dialect == 'mysql' else std_lex
+        dd = dialect
+    else:
+        sql = build_multi(position, values, null_node=True).to_string()
+        lits = extract_literals(position, sql)
+        reader, dd = std_lex_bs, 'tostring'
+    bad = None
+    if lits is None or len(lits) != len(values):
+        bad = ('shape', lits)
+    else:
+        for i, (v, l) in enumerate(zip(values, lits)):
+            got = read_literal(l, reader)
+            if not literal_ok(v, got, dd):
+                bad = (i, l, got)
+                break
+    if bad is None:
+        return None
+    return dict(kind='typed', path=path, shared=renderer is not None, desc='%s %s statement with constants %r is %r: literal %r is not read back as its own constant'
+                % (dialect if path == 'render' else 'to_string', position, values, sql, bad), dialect=dialect, position=position,
+                values=[repr(v) for v in values], sql=sql, classes=[], **{'class': 'typed/%s/%s/NEW' % (path, type(values[bad[0]]).__name__ if isinstance(bad[0], int) else 'shape')})
+
+
+def std_lex_bs(s):
+    """reader of the library's own printed literal: quotes are escaped with a backslash (Constant.get_string),
+    dates with a doubled quote; benign values only in this stream"""
+    r = lexh.spec_scan(s, "'", True)
+    return None if r is None else (lexh.denote(r[0], "'"), r[1])
+
+
 def kf_match(k, f):
     sig = k.get('signature', {})
     if sig.get('kind') != f.get('kind'):
@@ -301,6 +475,29 @@ def run(chk):
                 bump('tostring/%s/%s' % (d, 'fail' if f else 'ok'))
                 if f:
                     record(f)
+    # several constants of different types but equal Python value in one statement, and in two statements rendered by the
+    # SAME renderer instance; date / datetime (microseconds, tzinfo) / timedelta constants; all positions
+    from mindsdb_sql.render.sqlalchemy_render import SqlalchemyRender
+    rngt = common.rng_for(chk.seed, 'C07/typed')
+    atoms = [0, 1, True, False, 0.0, 1.0, '0', '1', 'x', None, 2, 2.0, _dt.date(2020, 1, 2), _dt.datetime(2020, 1, 2, 3, 4, 5, 6),
+             _dt.datetime(2020, 1, 2, 3, 4, 5, 6, tzinfo=TZ2), _dt.timedelta(days=2, microseconds=1), 0.1 + 0.2]
+    typed = list(TYPED) + [[rngt.choice(atoms) for _ in range(rngt.randint(2, 5))] for _ in range(20 if quick else 400)]
+    for d in RENDER_DIALECTS:
+        for pos in POSITIONS:
+            shared = SqlalchemyRender(d)
+            for vals in typed:
+                for rr in (None, shared):
+                    chk.count(('typed', d, pos, repr(vals), rr is None))
+                    f = probe_typed(d, pos, vals, 'render', rr)
+                    bump('typed/render/%s' % ('fail' if f else 'ok'))
+                    if f:
+                        record(f)
+    for pos in POSITIONS:
+        for vals in typed:
+            f = probe_typed('-', pos, vals, 'tostring')
+            bump('typed/tostring/%s' % ('fail' if f else 'ok'))
+            if f:
+                record(f)
     # non-string constants: rendering must not raise and must not contain a quote issue (dates are quoted ISO text)
     from mindsdb_sql.parser.ast import Constant
     for v in other_constants():
@@ -334,6 +531,18 @@ def replay_witness(w):
         return probe_render(w['dialect'], w['position'], w['value'])[1]
     if w['kind'] == 'tostring':
         return probe_tostring(w['dialect'], w['position'], w['value'])
+    if w['kind'] == 'typed':
+        vals = [eval(x, {'datetime': _dt}) for x in w['values']]
+        if w.get('shared') and w['path'] == 'render':
+            # the failure was seen with a renderer instance that had rendered other statements before
+            from mindsdb_sql.render.sqlalchemy_render import SqlalchemyRender
+            r = SqlalchemyRender(w['dialect'])
+            for prior in list(TYPED) + [vals]:
+                f = probe_typed(w['dialect'], w['position'], prior, 'render', r)
+                if f:
+                    return f
+            return None
+        return probe_typed(w['dialect'], w['position'], vals, w['path'])
     if w['kind'] == 'engine':
         return probe_sqlite_engine(sqlite3.connect(':memory:'), w['position'], w['value'])
     return None
